@@ -6,7 +6,7 @@ from vlib import Broken
 import zonechain as zc
 
 C10_PROBLEMS = {"reorged-node-differs-from-fresh-node", "reorged-node-canonical-index-differs", "fresh-node-rejects-canonical-block",
-                "follower-state-differs", "follower-sethead-differs", "address-index-differs-from-utxo-set"}
+                "follower-state-differs", "follower-sethead-differs", "address-index-differs-from-utxo-set", "dom-canonical-index-differs"}
 
 
 def run(ctx):
